@@ -253,6 +253,22 @@ pub fn c09_instances(_tier: Tier) -> Vec<Instance> {
                     }
                 }
             }
+            // the gate does not wear off or latch: a version packet after another one is judged on its own
+            for v in 0..=255u8 {
+                for (pos, frames) in [
+                    ("after-ver9", vec![f_ver(c, 9), f_ver(c, v)]),
+                    ("before-ver9", vec![f_ver(c, v), f_ver(c, 9), f_small(c)]),
+                    ("after-ver8", vec![f_ver(c, 8), f_ver(c, v)]),
+                ] {
+                    for verify in [true, false] {
+                        let mut i = Instance::new(&format!("ver2#{cname}#v{v}-{pos}-verify-{verify}#{}", imp_name(imp)), imp, c, frames.clone());
+                        i.verify_version = verify;
+                        i.chunks = Chunks::WholeOrBytes;
+                        i.allow_eof = false;
+                        out.push(i);
+                    }
+                }
+            }
             // no other kind is ever rejected by the gate
             for k in &kinds {
                 if k.name == "VER" { continue; }
